@@ -31,7 +31,7 @@ type c05Opaque struct{ net.Conn }
 func c05TCPPair(t *testing.T) (a, b *net.TCPConn) {
 	ln, err := net.Listen("tcp", "127.0.0.1:0")
 	if err != nil {
-		t.Fatal(err)
+		t.Fatalf("C05 needs a working loopback interface (cannot listen on 127.0.0.1): %v", err)
 	}
 	defer ln.Close()
 	ch := make(chan net.Conn, 1)
@@ -406,6 +406,14 @@ func TestVerifC05Tcp(t *testing.T) {
 		n = 6000
 	}
 	for i := 0; i < n; i++ {
+		if i%12 == 9 {
+			st.Emit("oracle tcp-source-ends-with-rst", c05RunSrcReset(t, r))
+			stats.Inc("copy.tcp-source-reset")
+		}
+		if i%60 == 7 {
+			st.Emit("oracle grace-period-on-real-sockets", c05RunGraceReal(t, r))
+			stats.Inc("copy.grace-on-real-sockets")
+		}
 		if i%12 == 5 {
 			// a destination that resets mid-transfer (bytes are left in the splice pipe), then a clean
 			// TCP-to-TCP splice copy in the same process: it must not start with another connection's bytes
@@ -441,6 +449,7 @@ func TestVerifC05Tcp(t *testing.T) {
 			stats.Sample(op + " => " + impl)
 		}
 	}
+	stats.Add("copy.dst-reset-mid-transfer.copy-did-not-fail(inconclusive)", c05DstFailureInconclusive)
 	stats.Write("c05tcp")
 }
 
@@ -452,11 +461,33 @@ func c05RunDstFailure(t *testing.T, r *VRand) string {
 	defer srcPeer.Close()
 	defer srcSide.Close()
 	defer dstSide.Close()
-	payload := c05GenBytes(r.Intn(256), 4<<20)
+	// the source keeps sending until the relay gives up (no assumption on socket-buffer sysctls: whatever the
+	// buffers absorb, the copy cannot complete before the destination's reset reaches it)
+	seed := r.Intn(256)
+	block := c05GenBytes(seed, 251*256) // the generator's period: the stream is block repeated
+	stop := make(chan struct{})
+	var sent atomic.Int64
 	go func() {
-		_, _ = srcPeer.Write(payload)
-		_ = srcPeer.CloseWrite()
+		for {
+			select {
+			case <-stop:
+				return
+			default:
+			}
+			_ = srcPeer.SetWriteDeadline(time.Now().Add(time.Second))
+			n, err := srcPeer.Write(block)
+			sent.Add(int64(n))
+			if err != nil && n == 0 {
+				if ne, ok := err.(net.Error); !ok || !ne.Timeout() {
+					return
+				}
+			}
+			if n%len(block) != 0 {
+				return // a partial write would break the period; the relay has failed by then
+			}
+		}
 	}()
+	defer close(stop)
 	gotCh := make(chan []byte, 1)
 	go func() {
 		buf := make([]byte, r.Range(1, 70000))
@@ -477,14 +508,20 @@ func c05RunDstFailure(t *testing.T, r *VRand) string {
 		return "bad:" + hang
 	}
 	got := <-gotCh
-	switch {
-	case err == nil:
-		return "bad:copy-succeeded-although-the-destination-reset"
-	case !bytes.HasPrefix(payload, got):
+	// Only what the property says is asserted: whatever the destination received is a prefix, in order, of
+	// what was sent.  Whether Copy reports the peer's reset depends on how much the kernel buffers absorbed
+	// before the RST was seen — a copy that "succeeded" is legal TCP and only counted (inconclusive for the
+	// pipe-hygiene follow-up, which needs a write that failed with bytes left in the splice pipe).
+	if !c05IsPrefixOfPeriodic(got, block) {
 		return "bad:destination-got-bytes-that-were-not-sent-in-this-order"
+	}
+	if err == nil {
+		c05DstFailureInconclusive++
 	}
 	return "ok"
 }
+
+var c05DstFailureInconclusive int
 
 // c05Watchdog runs f; a copy that has not returned after two minutes of wall clock (every case moves at
 // most a few MiB over loopback) is reported as a hang instead of stalling the whole check: the conns are
@@ -503,4 +540,113 @@ func c05Watchdog(f func() string, unblock func()) string {
 		}
 		return "hang:the-copy-did-not-return-within-2-minutes"
 	}
+}
+
+func c05IsPrefixOfPeriodic(got, block []byte) bool {
+	for i, b := range got {
+		if b != block[i%len(block)] {
+			return false
+		}
+	}
+	return true
+}
+
+// c05RunSrcReset: a TCP source that ends with RST (SO_LINGER 0) instead of FIN.  Whatever path the engine
+// takes (splice with/without accounting, gather body read, buffered loop), Copy must report an error — a
+// reset is not a clean end of stream — and the destination must have received a prefix of what was sent.
+func c05RunSrcReset(t *testing.T, r *VRand) string {
+	srcPeer, srcSide := c05TCPPair(t)
+	dstPeer, dstSide := c05TCPPair(t)
+	defer srcSide.Close()
+	defer dstSide.Close()
+	defer dstPeer.Close()
+	payload := c05GenBytes(r.Intn(256), []int{0, 1, 700, 40000, 300000}[r.Intn(5)])
+	var src net.Conn = srcSide
+	switch r.Intn(3) {
+	case 1:
+		src = &prefixedConn{Conn: srcSide, prefix: []byte("PREFIX-16-BYTES."), off: 0}
+		payload = append([]byte("PREFIX-16-BYTES."), payload...)
+		_, _ = srcPeer.Write(payload[16:])
+	default:
+		_, _ = srcPeer.Write(payload)
+	}
+	var record func(int64)
+	if r.Bool() {
+		record = func(int64) {}
+	}
+	gotCh := make(chan []byte, 1)
+	go func() {
+		b, _ := io.ReadAll(dstPeer)
+		gotCh <- b
+	}()
+	go func() {
+		time.Sleep(time.Duration(r.Intn(3)) * time.Millisecond)
+		_ = srcPeer.SetLinger(0)
+		_ = srcPeer.Close()
+	}()
+	var err error
+	if hang := c05Watchdog(func() string {
+		_, err = defaultRelayCopyEngine{}.Copy(context.Background(), dstSide, src, record)
+		return ""
+	}, func() {
+		_ = dstSide.Close()
+		_ = srcSide.Close()
+	}); hang != "" {
+		return "bad:" + hang
+	}
+	_ = dstSide.CloseWrite()
+	got := <-gotCh
+	switch {
+	case err == nil:
+		return "bad:a-reset-of-the-source-was-reported-as-a-clean-end-of-stream"
+	case !bytes.HasPrefix(payload, got):
+		return "bad:destination-got-bytes-that-were-not-sent-in-this-order"
+	}
+	return "ok"
+}
+
+// c05RunGraceReal: relayCore over REAL sockets with a short white-box grace period.  The client half-closes,
+// the upstream answers inside the grace period and then stays silent without closing: the answer must reach
+// the client and the relay must end by itself (the grace deadline has to interrupt a read blocked on a real
+// socket, whatever copy path that direction is on).
+func c05RunGraceReal(t *testing.T, r *VRand) string {
+	client, left := c05TCPPair(t)
+	upstream, right := c05TCPPair(t)
+	defer client.Close()
+	defer upstream.Close()
+	var rec func(int64)
+	if r.Bool() {
+		rec = func(int64) {}
+	}
+	core := newRelayCore(left, right, defaultRelayCopyEngine{}, rec, rec)
+	core.halfCloseTimeout = 400 * time.Millisecond
+	_, _ = client.Write([]byte("request"))
+	_ = client.CloseWrite()
+	go func() {
+		_ = upstream.SetReadDeadline(time.Now().Add(2 * time.Minute))
+		_, _ = io.ReadAll(upstream) // until the client's FIN has been passed on
+		_, _ = upstream.Write([]byte("inside-the-grace-period"))
+		// …and never closes
+	}()
+	clCh := make(chan []byte, 1)
+	go func() {
+		_ = client.SetReadDeadline(time.Now().Add(3 * time.Minute))
+		b, _ := io.ReadAll(client)
+		clCh <- b
+	}()
+	if hang := c05Watchdog(func() string {
+		_ = core.run(context.Background())
+		return ""
+	}, func() {
+		_ = left.Close()
+		_ = right.Close()
+	}); hang != "" {
+		return "bad:the-relay-did-not-end-after-the-grace-period:" + hang
+	}
+	_ = left.Close()
+	_ = right.Close()
+	if got := <-clCh; string(got) != "inside-the-grace-period" {
+		return fmt.Sprintf("bad:client-got-%q-after-its-half-close", got)
+	}
+	return "ok"
 }
